@@ -300,7 +300,7 @@ def reformat(rng, wj):
 def schema_verdicts(files):
     """validate documents against the published schema with the tooling python (jsonschema); None = unavailable"""
     helper = ("import json,sys,jsonschema\n"
-              "s=json.load(open('/repo/doc/world_builder_declarations.schema.json'))\n"
+              "s=json.load(open('%s/doc/world_builder_declarations.schema.json'))\n" % common.REPO +
               "v=jsonschema.Draft7Validator(s)\n"
               "for f in sys.argv[1:]:\n"
               "    try:\n"
@@ -388,6 +388,49 @@ def run(chk):
             p = os.path.join(wdir, "b%d_f%d.wb" % (wi, k))
             open(p, "w").write(reformat(rng, wj))
             docs.append((p, "format", "formatting variant", False, wi))
+    # model lists written at feature, section and segment level with different numbers of entries (empty lists included): valid
+    # documents; every combination must construct (or be refused with an exception) and answer queries
+    from worlds import line_world
+    kinds4 = ("temperature models", "composition models", "grains models", "velocity models")
+    for li in range(16 if quick else 96):
+        rng.seed("%d/c12-2/%d" % (chk.seed, li))
+        kind = "fault" if li % 2 == 0 else "subducting plate"
+        wj, sph, lf = line_world(rng, kind=kind, spherical=(li % 8 >= 6), straight=True, uniform_sections=False, allow_mass_conserving=False, extra_area=0.0)
+        sanitize_numbers(wj)
+        which = kinds4[(li // 2) % 4]
+
+        def one(k):
+            if k == "temperature models":
+                return {"model": "uniform", "temperature": float(round(rng.uniform(300, 1500), 1))}
+            if k == "composition models":
+                return {"model": "uniform", "compositions": [rng.randrange(3)]}
+            if k == "grains models":
+                return {"model": "uniform", "compositions": [0], "Euler angles z-x-z": [[10.0, 20.0, 30.0]], "grain sizes": [0.5]}
+            return {"model": "uniform raw", "velocity": [round(rng.uniform(-0.1, 0.1), 4) for _ in range(3)]}
+        for k in kinds4:
+            lf.pop(k, None)
+            for sg in lf["segments"]:
+                sg.pop(k, None)
+        lf[which] = [one(which), one(which)]
+        n_at_section = (li // 8) % 3          # 0: empty list, 1: one entry, 2: three entries
+        secs = []
+        for ci in range(len(lf["coordinates"])):
+            if ci % 2 == 1 and ci > 0:
+                continue
+            sc = {"coordinate": ci, "segments": copy.deepcopy(lf["segments"])}
+            sc[which] = [one(which) for _ in range((0, 1, 3)[n_at_section])]
+            if (li // 4) % 2 == 1 and len(sc["segments"]) > 1:
+                sc["segments"][-1][which] = [one(which)]      # one segment with its own list, the others inherit the section's
+            secs.append(sc)
+        lf["sections"] = secs
+        qs = []
+        for _ in range(6):
+            q, d = line_query(rng, wj, sph, lf)
+            qs.append("%s %s %s %s %s" % (common.fhex(q[0]), common.fhex(q[1]), common.fhex(q[2]), common.fhex(max(0.0, d)), TOK))
+        bp = os.path.join(wdir, "lists%d.wb" % li)
+        open(bp, "w").write(json.dumps(wj))
+        bases.append((bp, wj, qs))
+        docs.append((bp, "structure", "model lists at feature (2), section (%d) and segment level: %s of a %s" % ((0, 1, 3)[n_at_section], which, kind), None, len(bases) - 1))
     # corpus of minimised earlier failures, run on every tier
     for ci, big in enumerate([1.7976931348623157e308, 1e200, 1e155, -1e200]):
         for where in ((0, 1), (0, 0), (1, 1)):
